@@ -6,7 +6,11 @@ stack of ocimem / client+server hops / Select / Sub / unify / debug; iterators s
    initial state of ONE run) and exports a seed-dependent sample of them.
 2. harness `list` executes the exported configurations and seeded-random larger ones on the
    real packages, with a recording handler in front of every ociserver and a consumer that
-   declines at its k-th call.
+   declines at its k-th call.  Every listing VALUE is obtained once and run several times
+   (as configured, completely, early-stopped).  Universes of 10001 / 10003 items (beyond
+   ociserver's internal page bound) are listed with page sizes 1000..20000; their calls are
+   recorded as runs of consecutive ranks and judged against the closed form `Big`, which
+   TLC proves equal to the stream model on all small cases.
 3. TLC validates every recorded listing (page requests + consumer calls) against
    Observed(Stream(stack, start), k) and evaluates the OciList properties on the recorded calls."""
 import json
@@ -48,14 +52,23 @@ def tlc_mc(ctx, cfg, timeout, what):
 def stats(ctx, traces):
     """Counts what the batch exercised (also the guard against a vacuous run)."""
     st = dict(cases=0, by_kind={}, by_src={}, with_http=0, two_hops=0, multi_page=0, link_followed=0, last_fallback=0,
-              declined=0, errors=0, sub_with_start=0, unify=0, select=0, debug=0, escaped_start=0, requests=0, consumer_calls=0)
+              declined=0, errors=0, huge=0, huge_runs=0, huge_page_over_10000=0, paged_value_run_again=0, sub_with_start=0, unify=0, select=0, debug=0, escaped_start=0, requests=0, consumer_calls=0)
     samples = []
     for t in traces:
         with open(t) as f:
             for line in f:
+                if '"op":"biglist"' in line:
+                    e = json.loads(line)
+                    st['huge'] += 1
+                    st['huge_runs'] += len(e['passes'])
+                    if e['node']['n'] > 10000:
+                        st['huge_page_over_10000'] += 1
+                    continue
                 if '"op":"list"' not in line:
                     continue
                 e = json.loads(line)
+                if e['more'] and len([r for r in e['reqs'] if r['hop'] == max(q['hop'] for q in e['reqs'])]) >= 2:
+                    st['paged_value_run_again'] += 1
                 st['cases'] += 1
                 st['by_kind'][e['kind']] = st['by_kind'].get(e['kind'], 0) + 1
                 st['by_src'][e['src']] = st['by_src'].get(e['src'], 0) + 1
@@ -99,7 +112,8 @@ def stats(ctx, traces):
 def guard(ctx, st):
     """A batch in which the code never did what the property is about proves nothing (only
     meaningful once the batch has been accepted: a defect may be the reason)."""
-    need = ('multi_page', 'link_followed', 'last_fallback', 'declined', 'errors', 'sub_with_start', 'unify', 'select', 'two_hops', 'escaped_start')
+    need = ('multi_page', 'link_followed', 'last_fallback', 'declined', 'errors', 'sub_with_start', 'unify', 'select', 'two_hops', 'escaped_start',
+            'paged_value_run_again', 'huge', 'huge_page_over_10000')
     missing = [k for k in need if not st[k]]
     if missing:
         raise vlib.Machinery('the batch never exercised: %s' % ', '.join(missing))
@@ -113,7 +127,7 @@ def canary(ctx, trace):
         for line in f:
             if '"op":"list"' in line:
                 e = json.loads(line)
-                if len(e['reqs']) >= 2 and e['reqs'][0]['link'] and len(e['calls']) >= 2:
+                if len(e['reqs']) >= 2 and e['reqs'][0]['link'] and len(e['calls']) >= 2 and e['more'] and e['more'][0]['calls'] and e['more'][0]['reqs']:
                     ev = e
                     break
     if ev is None:
@@ -132,7 +146,9 @@ def canary(ctx, trace):
                 page_count=lambda e: e['reqs'][0].__setitem__('cnt', e['reqs'][0]['cnt'] - 1),
                 request_last=lambda e: e['reqs'][1].__setitem__('last', e['reqs'][1]['last'] + 1),
                 link_target=lambda e: e['reqs'][0].__setitem__('linklast', e['reqs'][0]['linklast'] - 2),
-                call_after_stop=lambda e: e.__setitem__('after', 1))
+                call_after_stop=lambda e: e.__setitem__('after', 1),
+                second_run_item=lambda e: e['more'][0]['calls'].pop(0),
+                second_run_request=lambda e: e['more'][0]['reqs'].pop())
     for name, f in muts.items():
         if mut(name, f):
             raise vlib.Machinery('canary: a listing with a corrupted %s is accepted' % name)
@@ -164,7 +180,8 @@ def run(ctx):
         t = os.path.join(td, 'rand%d.ndjson' % i)
         args = ['list', '-n', str(min(per, nrand)), '-seed', str(ctx.seed * 1000 + i), '-maxu', '24' if quick or i % 2 else '40', '-out', t]
         if i == 0:
-            args += ['-big', '1003' if quick else '2005']
+            # also universes beyond ociserver's internal page bound of 10000 (compact events)
+            args += ['-big', '1003' if quick else '2005', '-huge']
         vlib.run_harness(ctx, vh, args)
         traces.append(t)
         nrand -= per
@@ -184,6 +201,7 @@ def run(ctx):
         'ociunify: sequential read policy; no unifier below a unifier, and for referrers at most one member with HTTP hops (request order of concurrent members is not determined)',
         'Select/Sub for tags and referrers admit/rename the listed repository only (C12/C13 cover the rest)',
         'contents do not change during a listing (C08 covers concurrency)',
+        'universes > 10^4 items: one hop over ocimem only, items t00001.., calls recorded as runs of consecutive ranks (lossless), model = closed form Big (checked equal to Stream by TLC on the small sweep)',
         'TLC + community modules; harness JSON projection'
     ]
     return vlib.finish(ctx, rule='every listing executed on the real stack is one trace step: the page requests seen by the recording handler of each hop '
